@@ -1594,11 +1594,12 @@ package resolve
 //@ func Resolvable.printData
 //@   requires r != nil
 //@   modifies *, count(*), nocount(hasNext), nocount(completedEntry), nocount(pendingList)
-// C02: what printExtensions writes verbatim is punctuation and the package's own member names; anything that comes
+// C02: what printExtensions writes verbatim is punctuation and the package's own member names (the byte literals of
+// const.go, all of them, so that printing one more of them is not an alarm); anything that comes
 // from a subgraph (the names and values of forwarded extensions) is written through printNode, i.e. marshalled
 //@ func Resolvable.printExtensions
 //@   requires r != nil
-//@   at call Resolvable.printBytes: assert {only.punctuation.is.printed.verbatim} arr(arg1) == arr(quote) || arr(arg1) == arr(comma) || arr(arg1) == arr(colon) || arr(arg1) == arr(lBrace) || arr(arg1) == arr(rBrace) || arr(arg1) == arr(literalExtensions)
+//@   at call Resolvable.printBytes: assert {only.punctuation.is.printed.verbatim} arr(arg1) == arr(quote) || arr(arg1) == arr(comma) || arr(arg1) == arr(colon) || arr(arg1) == arr(lBrace) || arr(arg1) == arr(rBrace) || arr(arg1) == arr(lBrack) || arr(arg1) == arr(rBrack) || arr(arg1) == arr(null) || arr(arg1) == arr(literalData) || arr(arg1) == arr(literalTrue) || arr(arg1) == arr(literalFalse) || arr(arg1) == arr(literalErrors) || arr(arg1) == arr(literalMessage) || arr(arg1) == arr(literalLocations) || arr(arg1) == arr(literalPath) || arr(arg1) == arr(literalExtensions) || arr(arg1) == arr(literalTrace) || arr(arg1) == arr(literalQueryPlan) || arr(arg1) == arr(literalValueCompletion) || arr(arg1) == arr(literalRateLimit) || arr(arg1) == arr(literalAuthorization) || arr(arg1) == arr(literalIncremental) || arr(arg1) == arr(literalHasNext) || arr(arg1) == arr(literalLabel) || arr(arg1) == arr(literalPending) || arr(arg1) == arr(literalCompleted) || arr(arg1) == arr(literalId) || arr(arg1) == arr(literalSubPath) || arr(arg1) == arr(emptyArray) || arr(arg1) == arr(emptyObject)
 //@   modifies *, count(*), nocount(hasNext), nocount(completedEntry), nocount(pendingList)
 //@   safety none
 //@ func Resolvable.printErrors
